@@ -396,9 +396,9 @@ def run(tier, seed):
             items.append({'kind': 'directory', 'names': names3, 'pre': pre, 'posts': snaps3})
         names4 = ('a', 'b', 'c', 'd')
         snaps4 = list(snapshots(names4))
-        for pre in rng.sample(snaps4, 150):
-            items.append({'kind': 'directory', 'names': names4, 'pre': pre, 'posts': rng.sample(snaps4, 60)})
-        items += [{'kind': 'history', 'names': names4, 'seed': seed * 100 + i, 'count': 60, 'length': 12} for i in range(64)]
+        for pre in snaps4:
+            items.append({'kind': 'directory', 'names': names4, 'pre': pre, 'posts': rng.sample(snaps4, 100)})
+        items += [{'kind': 'history', 'names': names4, 'seed': seed * 100 + i, 'count': 80, 'length': 12} for i in range(160)]
     results, skipped = report.run_pool(dispatch, items, budget_s=common.tier_budget(tier, 70, 900))
     return report.finish(
         PROP, tier, seed, 'exploration', results, skipped,
